@@ -86,6 +86,7 @@ func TestPlan(t *testing.T) {
 		}
 		p.Shards = append(p.Shards, rs...)
 		p.Shards = append(p.Shards, ev.ShardSpec{Name: "affinity-0", Test: "^TestC04Affinity$", TimeoutS: 900})
+		p.Shards = append(p.Shards, ev.ShardSpec{Name: "sizes-0", Test: "^TestC04Sizes$", TimeoutS: 1800})
 	}
 	if err := ev.WritePlan(p); err != nil {
 		t.Fatal(err)
@@ -339,6 +340,135 @@ func TestC04Digest(t *testing.T) {
 	})
 }
 
+// TestC04Sizes: sizes and counts far from those of the generated sets. A file of 64 KiB, 1 MiB (one
+// byte less, exactly, one byte more), 16 MiB and (sparse) a little over 1 GiB and over 2 GiB, changed
+// in one byte at its beginning, in its middle, at its very end: every such change changes the digest,
+// and putting the byte back brings the digest back. Lists of 1 000, 4 095, 4 096, 4 097 and 10 000
+// files: the digest does not depend on the order of the list or on GOMAXPROCS, is the same when the
+// call is repeated, and changes when one file of the list changes.
+func TestC04Sizes(t *testing.T) {
+	s := ev.Open(t, "C04")
+	if f := execSizes(t, s); f != nil || s.Failed() {
+		t.Fatal("violations recorded")
+	}
+}
+
+// execSizes runs the whole space; with s == nil (replay) it only returns the first failure.
+func execSizes(t *testing.T, s *ev.Shard) *rp.Fail {
+	root := filepath.Join(workRoot(t), "sizes")
+	if err := os.MkdirAll(root, 0o755); err != nil {
+		t.Fatal(err)
+	}
+	defer os.RemoveAll(root)
+	seen := map[string]bool{}
+	var first1 *rp.Fail
+	report := func(sig, msg string, c any) {
+		if first1 == nil {
+			first1 = &rp.Fail{Sig: sig, Msg: msg, Size: 1}
+		}
+		if !seen[sig] && s != nil {
+			seen[sig] = true
+			s.Violation("sizes", sig, msg, 1, c)
+		}
+	}
+	eval := func(class string, c any) {
+		if s != nil {
+			s.Eval()
+			s.Class(class)
+			s.NonTrivial(fmt.Sprint(c))
+		}
+	}
+	digest := func(list []string) string {
+		d, err := hash.New().Hash(list)
+		if err != nil {
+			report("error-on-readable-list", fmt.Sprintf("Hash of %d readable files failed: %v", len(list), err), map[string]any{"files": len(list)})
+		}
+		return d
+	}
+	sizes := []int64{1 << 16, 1<<20 - 1, 1 << 20, 1<<20 + 1, 16 << 20, 1<<30 + 100<<20}
+	if ev.Thorough() {
+		sizes = append(sizes, 2<<30+5, 4<<30+1)
+	}
+	for _, size := range sizes {
+		p := filepath.Join(root, fmt.Sprintf("big-%d", size))
+		f, err := os.Create(p)
+		if err != nil {
+			t.Fatal(err)
+		}
+		if err := f.Truncate(size); err != nil { // sparse: zeros that take no space
+			t.Fatal(err)
+		}
+		other := filepath.Join(root, "small.txt")
+		_ = os.WriteFile(other, []byte("small"), 0o644)
+		base := digest([]string{p, other})
+		offsets := []int64{0, 100, size / 2, size - (1 << 20) - 1, size - 1}
+		if size > 1<<30 && !ev.Thorough() {
+			offsets = []int64{100, size - 1} // a gigabyte takes seconds to hash
+		}
+		for _, off := range offsets {
+			if off < 0 || off >= size {
+				continue
+			}
+			c := map[string]any{"file_size": size, "byte_changed_at": off}
+			eval("one_byte_of_a_large_file", c)
+			if _, err := f.WriteAt([]byte{'x'}, off); err != nil {
+				t.Fatal(err)
+			}
+			changed := digest([]string{p, other})
+			if changed == base {
+				report("different-sets-same-digest", fmt.Sprintf("a file of %d bytes (zeros) next to a small one: the byte at offset %d was changed to 'x', the digest stayed %s", size, off, base), c)
+			}
+			if _, err := f.WriteAt([]byte{0}, off); err != nil {
+				t.Fatal(err)
+			}
+			if back := digest([]string{other, p}); back != base {
+				report("same-set-different-digest", fmt.Sprintf("a file of %d bytes: after changing the byte at offset %d and putting it back the digest is %s, it was %s", size, off, back, base), c)
+			}
+		}
+		_ = f.Close()
+		_ = os.Remove(p)
+	}
+	// many files
+	many := filepath.Join(root, "many")
+	_ = os.MkdirAll(many, 0o755)
+	var all []string
+	for i := 0; i < 10000; i++ {
+		p := filepath.Join(many, fmt.Sprintf("f%05d.txt", i))
+		if err := os.WriteFile(p, []byte(fmt.Sprintf("content %d", i%7)), 0o644); err != nil {
+			t.Fatal(err)
+		}
+		all = append(all, p)
+	}
+	defer runtime.GOMAXPROCS(runtime.GOMAXPROCS(0))
+	for _, n := range []int{1000, 4095, 4096, 4097, 10000} {
+		list := append([]string(nil), all[:n]...)
+		c := map[string]any{"files_in_the_list": n}
+		eval("lists_of_thousands_of_files", c)
+		first := digest(list)
+		rev := make([]string, n)
+		for i, p := range list {
+			rev[n-1-i] = p
+		}
+		rot := append(append([]string(nil), list[n/3:]...), list[:n/3]...)
+		for vi, v := range [][]string{list, rev, rot, list} {
+			for _, procs := range []int{1, 2, 16} {
+				runtime.GOMAXPROCS(procs)
+				if d := digest(v); d != first {
+					report("digest-not-deterministic", fmt.Sprintf("a list of %d files: order variant %d at GOMAXPROCS %d gives %s, the first call gave %s", n, vi, procs, d, first), c)
+				}
+			}
+		}
+		victim := list[n-1]
+		old, _ := os.ReadFile(victim)
+		_ = os.WriteFile(victim, []byte("edited"), 0o644)
+		if d := digest(list); d == first {
+			report("different-sets-same-digest", fmt.Sprintf("a list of %d files: the last one was edited, the digest stayed %s", n, first), c)
+		}
+		_ = os.WriteFile(victim, old, 0o644)
+	}
+	return first1
+}
+
 // TestC04Affinity: the same lists hashed by child processes pinned to 1, 2, 4 and 16 CPUs
 // (runtime.NumCPU, hence the worker count, follows the affinity mask) must agree.
 func TestC04Affinity(t *testing.T) {
@@ -486,6 +616,8 @@ func TestReplay(t *testing.T) {
 		for i := 0; i < 20 && f == nil; i++ {
 			f = execList(nil, root, c)
 		}
+	case "sizes":
+		f = execSizes(t, nil)
 	case "digest":
 		var c DigestCase
 		if err := json.Unmarshal(v.Case, &c); err != nil {
